@@ -91,7 +91,7 @@ impl Definition {
 
 fn span_contains(span: Span, tree: &ParseTree, path: &Path, pos: LineCol) -> bool {
     let loc = tree.code_map.look_up_span(span);
-    loc.file.name() == path.to_str().unwrap()
+    Some(loc.file.name()) == path.to_str()
         && pos.line >= loc.begin.line
         && pos.line <= loc.end.line
         && pos.column >= loc.begin.column
